@@ -516,6 +516,34 @@ def run_one(sh, srs, fdepsd, run):
             sh.violation("sentinel-survived", case, {"where": sent}, tags)
     sh.count("parallel-call-wall-ms", int(wall * 1000))
 
+    # -- history: a result handed out earlier must not change when the pool machinery is
+    # used again for a request of the SAME shape (shared segments reused between calls)
+    if run["i"] % 2 == 0:
+        if kind == "_dofde":
+            held = {nm: np.asarray(getattr(getattr(par, nm), "values", getattr(par, nm)))
+                    for nm in ("psd", "peakamp", "binamps", "count", "srs", "var")
+                    if hasattr(par, nm)}
+        else:
+            held = {"sh": np.asarray(shp)}
+            if rp is not None:
+                held["hist"] = np.asarray(rp["hist"])
+        snaps = {nm: a.tobytes() for nm, a in held.items()}
+        sig0 = run["sig"]
+        run2 = dict(run, sig=np.ascontiguousarray(sig0[::-1]) * 0.5 + 1.0)
+        keep = run["sig"]
+        run["sig"] = run2["sig"]
+        try:
+            call(run.get("mode", "yes"))
+        except Exception as e:
+            sh.violation("exception:parallel-second-call", case, {"exc": repr(e)[:400]},
+                         tags)
+        finally:
+            run["sig"] = keep
+        sh.count("mon:earlier-result-unmutated")
+        changed = [nm for nm, a in held.items() if a.tobytes() != snaps[nm]]
+        if changed:
+            sh.violation("earlier-result-unmutated", case, {"changed": changed}, tags)
+
 
 def _tie_coverage(sh, np, run, ref):
     """Coverage only: does a cycle amplitude of the record (== the response of the
@@ -561,7 +589,7 @@ def run_shard(sh, params):
                          {"exc": traceback.format_exc()[-1500:]}, {})
 
 
-MANDATORY = (["runs", "mon:log-check", "mon:sentinel", "mon:srs-sh-bytes",
+MANDATORY = (["runs", "mon:log-check", "mon:sentinel", "mon:earlier-result-unmutated", "mon:srs-sh-bytes",
               "mon:srs-hist-bytes", "mon:srs-t-bytes", "mon:fde-psd-bytes",
               "mon:fde-count-bytes", "mon:fde-binamps-bytes", "mon:fde-srs-bytes",
               "mon:fde-var-bytes", "mon:fde-di_sig-bytes", "freq:0Hz", "freq:repeated",
